@@ -450,7 +450,26 @@ func ruleC06Regexp(c *Ctx, r *Rep) {
 		n := namedOf(t)
 		return n != nil && n.Obj().Pkg() != nil && n.Obj().Pkg().Path() == "sync" && n.Obj().Name() == "Map"
 	}
-	r.Check(isSyncMap(fld.Type()), "compiler.regexpCache:type", fld.Pos(), "compiler.regexpCache has type %s (must be sync.Map: it is written by concurrent runs)", fld.Type())
+	// safe for concurrent runs: a sync.Map, a sync/atomic value, or a struct made of these only
+	var safeType func(t types.Type) bool
+	safeType = func(t types.Type) bool {
+		if isSyncMap(t) {
+			return true
+		}
+		if n := namedOf(t); n != nil && n.Obj().Pkg() != nil && n.Obj().Pkg().Path() == "sync/atomic" {
+			return true
+		}
+		if st, ok := t.Underlying().(*types.Struct); ok && st.NumFields() > 0 {
+			for i := 0; i < st.NumFields(); i++ {
+				if !safeType(st.Field(i).Type()) {
+					return false
+				}
+			}
+			return true
+		}
+		return false
+	}
+	r.Check(safeType(fld.Type()), "compiler.regexpCache:type", fld.Pos(), "compiler.regexpCache has type %s: a sync.Map, a sync/atomic value or a struct made of these only (it is written by concurrent runs): %v", fld.Type(), safeType(fld.Type()))
 	// every use of a *sync.Map value in package gojq is a method call Load/Store/LoadOrStore or passing it on
 	uses, bad := 0, 0
 	for _, fd := range c.Decls(c.Gojq) {
